@@ -88,7 +88,7 @@ func runR042(c *core.Ctx) {
 						}
 					case *ast.SelectorExpr:
 						if fv, ok := core.ObjOf(inf, x).(*types.Var); ok && fv.IsField() && core.NameOf(fv) == "value" {
-							if nn := namedOf(inf.Types[x.X].Type); nn != nil && nn.Obj().Name() == "anyReader" {
+							if nn := namedOf(inf.Types[x.X].Type); nn != nil && core.NameOf(nn.Obj()) == "anyReader" {
 								return "the untyped reader's value"
 							}
 						}
@@ -160,7 +160,7 @@ func runR043(c *core.Ctx) {
 		}
 		isReflectValue := func(t types.Type) bool {
 			n, ok := t.(*types.Named)
-			return ok && n.Obj().Pkg() != nil && n.Obj().Pkg().Path() == "reflect" && n.Obj().Name() == "Value"
+			return ok && n.Obj().Pkg() != nil && n.Obj().Pkg().Path() == "reflect" && core.NameOf(n.Obj()) == "Value"
 		}
 		analyse := func(fd *ast.FuncDecl, report bool) (okSummary bool) {
 			par := core.Parents(fd)
@@ -195,9 +195,9 @@ func runR043(c *core.Ctx) {
 					if !ok || core.ObjOf(inf, sel.X) != v {
 						return true
 					}
-					if cf := core.Callee(inf, call); cf != nil && core.IsMethod(cf, "reflect", "Value", cf.Name()) {
-						if _, restricted := reflectNeeds[cf.Name()]; restricted {
-							reqs = append(reqs, site{call, cf.Name()})
+					if cf := core.Callee(inf, call); cf != nil && core.IsMethod(cf, "reflect", "Value", core.NameOf(cf)) {
+						if _, restricted := reflectNeeds[core.NameOf(cf)]; restricted {
+							reqs = append(reqs, site{call, core.NameOf(cf)})
 						}
 					}
 					return true
@@ -207,7 +207,7 @@ func runR043(c *core.Ctx) {
 						if sel, ok := core.Unparen(e).(*ast.SelectorExpr); ok {
 							if k, ok := core.ObjOf(inf, sel).(*types.Const); ok && k.Pkg() != nil && k.Pkg().Path() == "reflect" {
 								for _, a := range allowed {
-									if a == k.Name() || a == "*valid" && core.NameOf(k) != "Invalid" {
+									if a == core.NameOf(k) || a == "*valid" && core.NameOf(k) != "Invalid" {
 										return true
 									}
 								}
@@ -323,7 +323,7 @@ func runR043(c *core.Ctx) {
 					}
 					if report {
 						sites++
-						c.Check(okSite, tg[0], core.DeclName(fd), fmt.Sprintf("reflect %s.%s() #%d is kind-guarded", v.Name(), rq.method, ordinal(fd, rq.call)), rq.call.Pos(), strings.Join(allowed, "|"),
+						c.Check(okSite, tg[0], core.DeclName(fd), fmt.Sprintf("reflect %s.%s() #%d is kind-guarded", core.NameOf(v), rq.method, ordinal(fd, rq.call)), rq.call.Pos(), strings.Join(allowed, "|"),
 							fmt.Sprintf("reflect.Value.%s panics unless the value is %s; no dominating guard on some path (e.g. a nil / unexpected-kind input)", rq.method, strings.Join(allowed, "|")))
 					}
 				}
